@@ -46,14 +46,28 @@ class BudgetExceeded(BaseException):
 
 
 class Counter:
-    def __init__(self, budget):
+    """deterministic budgets: states admitted to columns (Column.add) and parse states constructed at all
+    (a loop that keeps building states without admitting any is caught by the second one)"""
+
+    def __init__(self, budget, budget_created=60000):
         self.n, self.budget = 0, budget
+        self.created, self.budget_created = 0, budget_created
 
     def install(self):
         import fandango.language.grammar.parser.column as col
+        import fandango.language.grammar.parser.parse_state as ps
         self.col = col
+        self.ps = ps
         self.orig = col.Column.add
+        self.orig_init = ps.ParseState.__init__
         me = self
+
+        def init(self_, *a, **k):
+            me.created += 1
+            if me.created > me.budget_created:
+                raise BudgetExceeded()
+            return me.orig_init(self_, *a, **k)
+        ps.ParseState.__init__ = init
 
         def add(self_, state):
             r = me.orig(self_, state)
@@ -66,6 +80,7 @@ class Counter:
 
     def uninstall(self):
         self.col.Column.add = self.orig
+        self.ps.ParseState.__init__ = self.orig_init
 
 
 NULLABLE_BITS = ['""', '"a"?', '"b"*', '("a" | "")', '<e>', '<e>?', '("a"?)*', '(<e> "b"?)+', '<start>?', '"a"{0,2}']
@@ -73,6 +88,10 @@ NULLABLE_BITS = ['""', '"a"?', '"b"*', '("a" | "")', '<e>', '<e>?', '("a"?)*', '
 
 def gen_spec(rng):
     """grammars biased towards empty-deriving symbols, nested repetitions, left/right/mutual recursion"""
+    if rng.random() < 0.12:
+        # repetitions whose input can be cut into elements in several ways (no empty-deriving symbol anywhere)
+        return rng.choice(['<start> ::= <x>+\n<x> ::= "a" | "aa" | "b"\n', '<start> ::= <x>* "c"\n<x> ::= "a" | "ab" | "b" | "ba"\n',
+                           '<start> ::= <op>* "b"\n<op> ::= "a" | "aa" | "c"\n', '<start> ::= (<x> | <x> <x>)+\n<x> ::= "a" | "b"\n'])
     if rng.random() < 0.15:
         # empty-matching regexes under repetitions (a regex terminal never matches the empty string for the parser)
         return rng.choice(['<start> ::= <ws>+ "b"\n<ws> ::= r"[ab]*"\n', '<start> ::= r"a*"+ "b"\n', '<start> ::= (r"a?" "c"?)* "b"\n',
@@ -119,6 +138,10 @@ def gen_worker(args):
             continue
         for _ in range(2):
             w = "".join(rng.choice("abab c") for _ in range(rng.randint(0, 5))).replace(" ", "")
+            if "cut into elements in several ways" in spec or spec.startswith("<start> ::= <x>+\n<x> ::= \"a\" | \"aa\"") or '"ab" | "b" | "ba"' in spec \
+                    or '<op> ::= "a" | "aa"' in spec or "(<x> | <x> <x>)+" in spec:
+                # longer words: several ways of cutting, followed by further elements
+                w = "".join(rng.choice("aab") for _ in range(rng.randint(3, 7))) + rng.choice(["", "b", "bb", "c", "ab"])
             mode = rng.choice(["forest", "forest", "first", "prefix"])
             c = Counter(BUDGET)
             c.install()
